@@ -311,7 +311,7 @@ STACK_ASSUME = [
     'read-only roots hold only files that other Kismet writers published (World.ro_valid, part of the invariant the stubs preserve because no mutating stub accepts a path under a read-only root)',
     'std::io::copy, tempfile::{tempfile, tempfile_in, NamedTempFile::{new_in, as_file_mut, into_parts}} as written in contracts/prelude (copy is one atomic step; anonymous temporary files have no name)',
     'T14: `opt.and_then(|c| c.get(key).transpose()).transpose()` is rewritten to the equal match expression; `self.write_side.as_ref().map(Arc::as_ref)` to the stand-in opt_arc_as_ref',
-    'Cache::ensure (one forwarding call to get_or_update with the constant judge Promote and an adapter closure) and the directory-adding builder methods are not under contract',
+    'the directory-adding builder methods (plain_writer, sharded_writer, reader, ...) and the derived Default impls are not under contract',
 ]
 _u4('C13', 'Unbounded proof, for stacks of any depth: ReadOnlyCache::get/touch return / mark the copy of the first level in registration order that holds one '
     '(first_copy) and report a miss only if no level holds one; Cache::get::doit / touch::doit consult the write cache first. Cache::get_or_update (the verbatim body, generic in '
@@ -321,8 +321,7 @@ _u4('C13', 'Unbounded proof, for stacks of any depth: ReadOnlyCache::get/touch r
     'with a write cache, publishes it (set); a miss publishes the populated file (put) or, without a write cache, returns a fresh throw-away file and changes no name; '
     'set_impl / put_impl without a write cache fail as Unsupported with the World unchanged.',
     replayer=_native('c13', [], []), thorough=_thorough_native('C13', 'c13', [], 'real Cache::get_or_update over writer {none, plain, sharded} x key location x action x populate outcome x checker'),
-    not_covered=['Cache::ensure (a one-call wrapper around get_or_update with the constant judge Promote) is not itself under contract',
-                 'that a published copy stays bound afterwards is not claimed for sharded write caches (a forced maintenance of the same shard may evict it)'],
+    not_covered=['that a published copy stays bound afterwards is not claimed for sharded write caches (a forced maintenance of the same shard may evict it)'],
     extra_assume=STACK_ASSUME)
 _u4('C14', 'Unbounded proof, for stacks of any depth: with a checker configured, ReadOnlyCache::get succeeds only if the checker accepted the first copy against every copy held by a later '
     'level (later_copies_accepted); Cache::get::doit and Cache::get_or_update with a write-side hit only if the checker accepted that hit against the first read-only copy and that copy '
